@@ -765,7 +765,7 @@ def e_TRALSS(g):
 def e_tt(g):
     import tensorly.decomposition as D
 
-    shape = g.shapeN()
+    shape = g.choice([g.shapeN(), g.shapeN(), g.shapeN(), (6, 20, 20)])  # the last: unfoldings with a dimension >= 256
     rank = g.choice([2, [1] + [2] * (len(shape) - 1) + [1], 1, [1] + [9] * (len(shape) - 1) + [1], tuple([1] + [2] * (len(shape) - 1) + [1])])
     kw = dict(input_tensor=g.low_rank(shape, 2), rank=rank)
     svd_opt(g, kw, 0.4, randomized=False)
@@ -1154,7 +1154,7 @@ def e_mttkrp(g):
 def e_svd(g):
     from tensorly.tenalg.svd import svd_interface
 
-    shape = g.choice([(5, 3), (3, 5), (4, 4), (6, 2)])
+    shape = g.choice([(5, 3), (3, 5), (4, 4), (6, 2), (320, 6), (8, 300)])  # the last two reach size-gated code paths
     m = g.choice(["randomized_svd", "truncated_svd", "symeig_svd", "partial_rsvd", "kwargs_rsvd", "fn_rsvd"])
     kw = dict(matrix=g.low_rank(shape, 2), method=svd_callables()[m] if m.endswith("_rsvd") else m)
     if m.endswith("_rsvd"):
@@ -1177,8 +1177,8 @@ def e_svd(g):
 def e_svd_exact(g):
     from tensorly.tenalg.svd import svd_interface
 
-    shape = g.choice([(5, 3), (3, 5), (4, 4)])
-    kw = dict(matrix=g.low_rank(shape, 2), method=g.choice(["truncated_svd", "symeig_svd"]), n_eigenvecs=g.choice([2, 1, None]))
+    shape = g.choice([(5, 3), (3, 5), (4, 4), (320, 6), (8, 300)])
+    kw = dict(matrix=g.low_rank(shape, 2), method=g.choice(["truncated_svd", "symeig_svd"]), n_eigenvecs=g.choice([2, 1, None, 3]))
     g.opt(kw, "non_negative", [True], 0.25)
     return dict(fn=svd_interface, kwargs=kw)
 
@@ -1681,7 +1681,7 @@ def e_svd_helpers(g):
 
     which = g.choice(["svd_flip", "make_svd_non_negative", "truncated_svd", "symeig_svd"])
     g.notes["which"] = which
-    shape = g.choice([(5, 3), (3, 5), (4, 4)])
+    shape = g.choice([(5, 3), (3, 5), (4, 4), (300, 5), (6, 280)])
     m = g.low_rank(shape, 2)
     if which in ("truncated_svd", "symeig_svd"):
         fn = truncated_svd if which == "truncated_svd" else symeig_svd
@@ -1711,7 +1711,7 @@ def e_svdinit(g, which):
     involved, so repeated calls must agree bit for bit whatever the global RNG does."""
     import tensorly.decomposition as D
 
-    shape = g.choice([(3, 4, 3), (4, 3, 3), (3, 3, 3)])
+    shape = g.choice([(3, 4, 3), (4, 3, 3), (3, 3, 3), (6, 20, 20)])
     rank = g.choice([2, 1, 3])
     nonneg = "non_negative" in which or which == "constrained_parafac"
     tensor = g.low_rank(shape, 2, nonneg=nonneg)
